@@ -268,12 +268,15 @@ def P(pid):
             ('RF-Q issued exponent leaves the loop only when valid', CL.rule_e_loop_exit, 3),
             ('RF-F secure_pow_mod exponents are positive by construction', CL.rule_secure_pow_exponents, 2),
             ('RF-T size special cases of the CL03 code are the tabled ones', rf_frame.rule_size_thresholds_cl03, 3),
+            ('RF-P no range 0..=n over a count', CL.rule_no_inclusive_count_ranges, 2),
+            ('RF-B literal base positions are position 0', CL.rule_constant_base_positions, 2),
             ('RF-D a signature is computed from the key, the bases and every attribute', lambda c: rf_frame.rule_result_binding(c, table={k: v for k, v in rf_frame.RESULT_BINDING_CL03.items() if '::sign' in k and 'blind' not in k}), 8),
             ('RF-N CL03 signature octets: reader offsets = writer offsets', rf_codec.rule_cl03_signature_codec, 1),
             ('RF-N serde writer/reader agreement (CL03 keys, signatures, bases, messages)', lambda c: rf_codec.rule_serde_symmetry(c, scope=('cl03::signature', 'cl03::keys', 'cl03::bases', 'cl03::blind', 'utils::message::cl03_message'), min_types=5), 15),
             ('RF-P every attribute is folded with the base of its own position', lambda c: rf_codec.rule_loop_coverage(c, fns=[CL.SIGI + 'sign_multiattr', CL.SIGI + 'verify_multiattr'], follow_prefix='cl03::signature::'), 3),
             ('RF-W acceptance conditions test the combinations of inputs tested before', lambda c: rf_gatesets.rule_gate_sets(c, group='cl03', only=['::verify', 'verify_multiattr']), 2),
             ('RF-S the tests acceptance rests on hold the way round and with the strictness they had', lambda c: rf_senses.rule_acceptance_senses(c, group='cl03', only=['CL03<CS>>>::verify', 'verify_multiattr']), 2),
+            ('RF-S guards of the other signature functions keep their sense', lambda c: rf_senses.rule_acceptance_senses(c, scope=('cl03::signature::',)), 1),
         ]
         meta['explanation'] = ('CL03 is analysed in the all-features configuration the baseline never builds. Decided (necessary): verify / verify_multiattr accept only through '
                                'the equation comparison (depending on v, e, s, bases, attributes, b, c, N), the lower bound on e and a comparison of every attribute with 2^lm '
@@ -289,6 +292,8 @@ def P(pid):
             ('RF-D revealed attributes are used whenever they are handed in', CL.rule_optional_attributes_used, 3),
             ('RF-F secure_pow_mod exponents are positive by construction', CL.rule_secure_pow_exponents, 2),
             ('RF-T size special cases of the CL03 code are the tabled ones', rf_frame.rule_size_thresholds_cl03, 3),
+            ('RF-P no range 0..=n over a count', CL.rule_no_inclusive_count_ranges, 2),
+            ('RF-B literal base positions are position 0', CL.rule_constant_base_positions, 2),
             ('RF-Q every issued signature (blind_sign, update_signature) gets an exponent of its own from the search loop', CL.rule_e_loop_exit, 4),
             ('RF-D the blind signature is computed from the commitment, the key, the bases and the revealed attributes', lambda c: rf_frame.rule_result_binding(c, table={k: v for k, v in rf_frame.RESULT_BINDING_CL03.items() if 'blind_sign' in k}), 6),
             ('RF-C Fiat-Shamir ingredients of the issuance sigma protocols', lambda c: rf_hash.rule_hash_binding(c, rf_hash.CL03_FS_TABLE, CL03_FS_SCOPE), 38),
@@ -304,6 +309,9 @@ def P(pid):
             ('RF-P cursor discipline', CL.rule_cursor_discipline, 10),
             ('RF-W acceptance conditions test the combinations of inputs tested before', lambda c: rf_gatesets.rule_gate_sets(c, group='cl03', only=['verify_proof']), 2),
             ('RF-S the tests acceptance rests on hold the way round and with the strictness they had', lambda c: rf_senses.rule_acceptance_senses(c, group='cl03', only=['verify_proof']), 1),
+            ('RF-Q range proofs are made and checked for the interval of the quantity they are about', CL.rule_range_statement_intervals, 2),
+            ('RF-D no verifier says true from inside a loop over the parts of a proof', CL.rule_no_early_accept, 2),
+            ('RF-S guards of the issuing and committing functions keep their sense', lambda c: rf_senses.rule_acceptance_senses(c, scope=('cl03::blind::', 'cl03::commitment::'), floor=2), 1),
         ]
         meta['explanation'] = ('Decided (necessary): every use of the secret key in blind_sign is dominated by verify_proof == true on the very C, C_trusted, pk, bases, key and positions '
                                'that are signed; verify_proof is gated by the multi-secret PoK, the per-attribute PoKs / range proofs and the PoK / range proof of r; each per-attribute commitment '
@@ -329,6 +337,10 @@ def P(pid):
             ('RF-P cursor discipline (revealed / hidden position bookkeeping)', CL.rule_cursor_discipline, 10),
             ('RF-W acceptance conditions test the combinations of inputs tested before', lambda c: rf_gatesets.rule_gate_sets(c, group='cl03', only=['proof_verify']), 2),
             ('RF-S the tests acceptance rests on hold the way round and with the strictness they had', lambda c: rf_senses.rule_acceptance_senses(c, group='cl03', only=['proof_verify']), 1),
+            ('RF-Q range proofs are made and checked for the interval of the quantity they are about', CL.rule_range_statement_intervals, 2),
+            ('RF-D no verifier says true from inside a loop over the parts of a proof', CL.rule_no_early_accept, 2),
+            ('RF-P no range 0..=n over a count', CL.rule_no_inclusive_count_ranges, 2),
+            ('RF-B literal base positions are position 0', CL.rule_constant_base_positions, 2),
         ]
         meta['explanation'] = ('Decided (necessary): the recomputed challenge equality gates acceptance and depends on all nine responses, the four commitment values, both keys, the bases, the revealed '
                                'attributes and the attribute count; Ce is equated with the range proof on e and each per-attribute commitment with its range proof; every serialised leaf of the proof '
@@ -350,6 +362,8 @@ def P(pid):
             ('RF-Q the honest prover refuses out-of-range values', CL.rule_prover_refuses_out_of_range, 3),
             ('RF-W acceptance conditions test the combinations of inputs tested before', lambda c: rf_gatesets.rule_gate_sets(c, group='cl03', only=['Boudot2000RangeProof::verify']), 2),
             ('RF-S the tests acceptance rests on hold the way round and with the strictness they had', lambda c: rf_senses.rule_acceptance_senses(c, group='cl03', only=['Boudot2000RangeProof::verify']), 1),
+            ('RF-D no verifier says true from inside a loop over the parts of a proof', CL.rule_no_early_accept, 2),
+            ('RF-S guards of the range prover keep their sense', lambda c: rf_senses.rule_acceptance_senses(c, scope=('cl03::range_proof::',)), 1),
         ]
         meta['explanation'] = ('Decided (necessary): acceptance of a Boudot range proof is gated by E\' == E^(2^T), the two decomposition equalities, both proofs of square and both larger-interval '
                                'proofs, each depending on the commitment, bases, modulus and bounds; the commitment carried by each proof of square is equated with E_a_1 / E_b_1 (the transplant defect); '
@@ -371,6 +385,9 @@ def P(pid):
             ('RF-Q the random exponent of a signature has ls bits', rf_bits.rule_signature_randomness_bits, 2),
             ('RF-Q key / parameter generation loops and shapes', rf_bits.rule_key_generation, 20),
             ('RF-Q random helpers', rf_bits.rule_random_helpers, 6),
+            ('RF-N CL03 key octets: reader offsets = writer offsets', rf_codec.rule_cl03_key_codecs, 3),
+            ('RF-P no range 0..=n over a count', CL.rule_no_inclusive_count_ranges, 2),
+            ('RF-S guards of the key decoders keep their sense', lambda c: rf_senses.rule_acceptance_senses(c, scope=('cl03::keys::',)), 1),
         ]
         meta['explanation'] = ('Decided (complete given the rug contracts is_probably_prime / next_prime / secure_pow_mod): both copies of the safe-prime search leave each loop only after the primality '
                                'test (and p != q), p = 2 p\' + 1 with p\' = random_prime(SECPARAM); b, c, a_i, h are random_qr(N) = r^2 mod N accepted only if > 1 and coprime to N; every g_i is a power of h '
